@@ -240,8 +240,17 @@ impl GenerateConfig {
 
         // Insert typegen configuration into plugins
         if let Some(plugins) = tauri_obj.get_mut("plugins") {
-            if let Some(plugins_obj) = plugins.as_object_mut() {
-                plugins_obj.insert("typegen".to_string(), typegen_config);
+            match plugins.as_object_mut() {
+                Some(plugins_obj) => {
+                    plugins_obj.insert("typegen".to_string(), typegen_config);
+                }
+                None => {
+                    // Nowhere to put the settings: refuse instead of reporting success
+                    return Err(ConfigError::InvalidConfig(
+                        "\"plugins\" in tauri.conf.json is not an object, cannot store the typegen settings"
+                            .to_string(),
+                    ));
+                }
             }
         }
 
